@@ -212,4 +212,9 @@ def capabilities (st : State) : Caps :=
 
 def logs (st : State) : List (List (Nat × Call)) := st.children.map (·.log)
 
+/-- the children change what they are capable of (a child that reports only while its connection is up, …): not a
+call on the multi reporter, which keeps no copy of the answers -/
+def setCaps (st : State) (caps : List Caps) : State :=
+  { st with children := (st.children.zip caps).map (fun p => { p.1 with caps := p.2 }) ++ st.children.drop caps.length }
+
 end Tally.Multi
